@@ -9,5 +9,10 @@ import OmplModel.Props.C10
 #print axioms OmplModel.NN.nearestK_exact
 #print axioms OmplModel.NN.nearestR_exact
 #print axioms OmplModel.NN.nearest_exact
-#print axioms OmplModel.NN.add_preserves_inv_partial
-#print axioms OmplModel.NN.remove_preserves_inv_partial
+#print axioms OmplModel.NN.kcenters_relation
+#print axioms OmplModel.NN.split_establishes_inv
+#print axioms OmplModel.NN.add_preserves_inv
+#print axioms OmplModel.NN.rebuild_abs
+#print axioms OmplModel.NN.remove_preserves_inv
+#print axioms OmplModel.NN.gnat_size_list_abs
+#print axioms OmplModel.NN.gnat_history_queries_exact
